@@ -144,7 +144,7 @@ func buildProperties() []Property {
 			NotDecided: "that the answer sequence equals the reference SLD sequence (clause order, goal order, completeness, termination reporting) - a statement about the dynamic shape of the promise stack for every program.",
 			Rules: []RuleDef{
 				{"R-ENV-IMMUT", 9, ruleEnvImmut},
-				{"R-PARAM-THREAD", 6, ruleParamThread(threadRowsFor("exec"))},
+				{"R-PARAM-THREAD", 5, ruleParamThread(threadRowsFor("exec"))},
 				{"R-ENUM-TOTAL", 15, ruleEnumTotal},
 				{"R-CUT-PARENT", 1, ruleCutParent},
 				{"R-FRESH-VARS", 1, ruleFreshVars},
@@ -161,7 +161,8 @@ func buildProperties() []Property {
 				{"R-CUT-PARENT", 1, ruleCutParent},
 				{"R-CUT-LOCAL", 4, ruleCutLocal},
 				{"R-POP-INCLUSIVE", 2, rulePopInclusive},
-				{"R-PARAM-THREAD", 6, ruleParamThread(threadRowsFor("exec"))},
+				{"R-CUT-REBASE", 1, ruleCutRebase},
+				{"R-PARAM-THREAD", 5, ruleParamThread(threadRowsFor("exec"))},
 			},
 		},
 		{
